@@ -89,7 +89,7 @@ class BaseCurve(Intface_BaseCurve):
             matra, matrb = heavy.MathOperations.add_spline_curve(vecta, vectb)
             curve = Curve(self.knotvector | other.knotvector)
             ctrlpoints = np.array(matra) @ self.ctrlpoints
-            ctrlpoints += np.array(matrb) @ other.ctrlpoints
+            ctrlpoints = ctrlpoints + np.array(matrb) @ other.ctrlpoints
             curve.ctrlpoints = ctrlpoints
             return curve
         numa, dena = self.fraction()
